@@ -117,6 +117,14 @@ def term(e, env, ircls):
         return ("?", e.id)
     if isinstance(e, ast.Attribute) and isinstance(e.value, ast.Name) and e.value.id == "self":
         return ("RAW", e.attr)
+    if isinstance(e, ast.Attribute) and e.attr == "value":
+        inner = term(e.value, env, ircls)
+        if inner[0] in ("OPT", "RAW"):
+            return ("VALUE", inner[1])
+    if isinstance(e, ast.BinOp) and isinstance(e.op, (ast.Add, ast.Sub, ast.Mult)):
+        a, b = term(e.left, env, ircls), term(e.right, env, ircls)
+        if a[0] == "VALUE" and b[0] == "VALUE":
+            return ("ARITH", {ast.Add: "Add", ast.Sub: "Subtract", ast.Mult: "Multiply"}[type(e.op)], a[1], b[1])
     if isinstance(e, ast.Call):
         f = e.func
         if isinstance(f, ast.Name) and f.id.startswith("peephole_") and len(e.args) == 1 and not e.keywords:
@@ -365,7 +373,8 @@ def validate(cls_name, fields, pc, result, multi_registered):
             if not (v[0] in ("OPT", "RAW") and v[1] == f):
                 return f"field {f} rebuilt from {v} instead of its own optimised value"
         return None
-    if kind == "NEW":
+    folded = kind == "NEW" and result[1] in ("IntegerLiteral", "FloatLiteral") and len(result[2]) == 1 and result[2][0][0] == "ARITH"
+    if kind == "NEW" and not folded:
         if result[1] != cls_name:
             return f"rebuilds a {result[1]} for a {cls_name}" + (
                 " (function is registered for several classes)" if multi_registered else ""
@@ -400,8 +409,25 @@ def validate_rewrite(cls_name, fields, atoms, result):
                 subst[x[1]] = (y[1], y[2])
         if a[0] == "OPT" and b[0] == "OPT":
             same.append((a[1], b[1]))
-    if any(a[0] == "?" for a in atoms) or any(x[0] == "?" for _, x, y in eqs) or any(y[0] == "?" for _, x, y in eqs):
-        return f"uninterpretable guard {atoms}"
+    # conjuncts of the guard that cannot be interpreted are dropped: the rewrite is then validated under FEWER
+    # assumptions (an extra side condition such as a range check can only make a valid rewrite apply less often)
+    atoms = [a for a in atoms if a[0] != "?" and not (a[0] == "EQ" and (a[1][0] == "?" or a[2][0] == "?"))]
+    eqs = [a for a in atoms if a[0] == "EQ"]
+    if cls_name in ARITH and result[0] == "NEW" and result[1] in ("IntegerLiteral", "FloatLiteral") and len(result[2]) == 1 and result[2][0][0] == "ARITH":
+        # literal (op) literal folded by Python arithmetic on the two values
+        _, op, fa, fb = result[2][0]
+        kinds = {}
+        for a in atoms:
+            if a[0] == "ISINST" and a[1][0] in ("OPT", "RAW") and a[2] in ("IntegerLiteral", "FloatLiteral"):
+                kinds[a[1][1]] = a[2]
+        if op != cls_name or (fa, fb) != ("left", "right"):
+            return f"{cls_name} of two literals folded as {op}({fa}, {fb})"
+        if kinds.get("left") is None or kinds.get("right") is None:
+            return f"literal folding without both operands being known literals of one kind (guard {fmt_guard(atoms)})"
+        want = "IntegerLiteral" if kinds["left"] == kinds["right"] == "IntegerLiteral" else "FloatLiteral"
+        if result[1] != want or kinds["left"] != kinds["right"]:
+            return f"{kinds['left']} {cls_name} {kinds['right']} folded into a {result[1]} (must keep the literal kind of same-kind operands)"
+        return None
     if cls_name in ARITH:
         sym = {}
         for f in ("left", "right"):
